@@ -211,9 +211,12 @@ var slotCmp = []string{"<", "<=", ">", ">=", "==", "!="}
 // slotRoot yields the statements of one pattern (they run inside one try block).
 func (g *g) slotRoot() []*N {
 	var pre []*N
-	form := g.n(0, 14, "slotform")
-	if form == 14 {
+	form := g.n(0, 15, "slotform")
+	switch form {
+	case 14:
 		form = 10
+	case 15:
+		form = 5
 	}
 	strOK := map[int]bool{0: true, 2: true, 5: true, 6: true, 7: true, 8: true, 9: true, 10: true, 11: true}
 	str := strOK[form] && g.n(0, 3, "strslot?") == 0
